@@ -505,6 +505,30 @@ func exec(line string) (res h.Result) {
 		execRep(op[:2], w, &res)
 	case op == "par":
 		execPar(w, &res)
+	case op == "eqh":
+		// eqh <g> <e1>=<e2>;<e1>=<e2>;…: a HISTORY of Equal calls in one process (seeded C11f-1: Equal marshals into a
+		// pooled scratch buffer and the identity leaves its half stale): every answer must be the elements' equality
+		// and the equality of the two encodings, whatever was compared before
+		g := w[1]
+		var outs []string
+		for i, pr := range strings.Split(w[2], ";") {
+			ab := strings.SplitN(pr, "=", 2)
+			P, Q := evalExpr(g, ab[0]), evalExpr(g, ab[1])
+			want := P.dlog.Cmp(Q.dlog) == 0
+			eq1, eq2 := P.pt.Equal(Q.pt), Q.pt.Equal(P.pt)
+			same := bytes.Equal(mustEnc(P.pt), mustEnc(Q.pt))
+			outs = append(outs, fmt.Sprintf("%d%d%d", b2i(eq1), b2i(eq2), b2i(same)))
+			if res.Oracle == "" {
+				switch {
+				case eq1 != want || eq2 != want:
+					res.Oracle = fmt.Sprintf("%s-equal-history-mismatch: comparison %d of the history (%s): elements equal=%v, P.Equal(Q)=%v Q.Equal(P)=%v", g, i, pr, want, eq1, eq2)
+				case same != want:
+					res.Oracle = fmt.Sprintf("%s-equal-vs-bytes: comparison %d of the history (%s): elements equal=%v, encodings equal=%v", g, i, pr, want, same)
+				}
+			}
+		}
+		res.Impl = strings.Join(outs, ";")
+		res.Class = "eqh-" + g
 	case op == "seq":
 		// seq <g1|g2|gt> <step,step,...>: ONE receiver object taken through a sequence of states.
 		// steps: n = Null(), b = Base(), m<k> = Mul(k, nil), d<hex> = UnmarshalBinary, f<hex> = UnmarshalFrom.
@@ -514,6 +538,8 @@ func exec(line string) (res h.Result) {
 		var outs []string
 		for i, st := range strings.Split(w[2], ",") {
 			switch st[0] {
+			case 'r': // the following steps use a FRESH receiver object (state carried outside the receiver shows here)
+				pt = group(g).Point()
 			case 'n':
 				pt.Null()
 			case 'b':
